@@ -20,7 +20,7 @@ def tla(x):
     return str(x)
 
 
-def world_module(ctx, name, base, world_path):
+def world_module(ctx, name, base, world_path, edge_depth=None):
     """Write a module <name> in the scratch dir that EXTENDS <base> and binds the world constants."""
     w = json.load(open(world_path))
     ext = "<<" + ", ".join("{" + ", ".join(str(e) for e in es) + "}" for es in w["ext"]) + ">>"
@@ -30,8 +30,10 @@ def world_module(ctx, name, base, world_path):
             "WExtOf == " + ext,
             "WSize == " + tla(w["size"]),
             "WMeta == %d" % w["meta"],
-            "WVersions == " + tla(w["versions"]),
-            "===="]
+            "WVersions == " + tla(w["versions"])]
+    if edge_depth is not None:
+        body.append("WEdgeDepth == %d" % edge_depth)
+    body.append("====")
     path = os.path.join(ctx.scratch, name + ".tla")
     open(path, "w").write("\n".join(body) + "\n")
     return path[:-4], w
@@ -40,9 +42,12 @@ def world_module(ctx, name, base, world_path):
 def replay_world(ctx, drv, scen, idx, limit_edges):
     wp = os.path.join(ctx.scratch, "world%d.json" % idx)
     ctx.drive(drv, ["-mode", "world", "-scenario", scen, "-world", wp], name="c21-world%d" % idx)
-    mod, w = world_module(ctx, "MCHashDBW%d" % idx, "MCHashDBBase", wp)
+    w0 = json.load(open(wp))
+    # small graphs are replayed completely, larger ones up to a fixed distance from the initial state
+    depth = 999 if (w0["n"] <= 7 or (w0["n"] <= 8 and len({v["root"] for v in w0["versions"]}) <= 2)) else ctx.pick(9, 11)
+    mod, w = world_module(ctx, "MCHashDBW%d" % idx, "MCHashDBBase", wp, edge_depth=depth)
     res = ctx.model_check(mod, "state/MCHashDBEdges", tags=("EDGE",), timeout=3600,
-                          name="MCHashDBEdges[scenario %s, %d nodes]" % (scen, w["n"]), workers=ctx.pick(4, 8))
+                          name="MCHashDBEdges[scenario %s, %d nodes, edges to depth %d]" % (scen, w["n"], depth), workers=ctx.pick(4, 8))
     edges = parse_edges(res)
     if not edges:
         raise InfraError("no edges emitted for scenario %s" % scen)
@@ -57,7 +62,7 @@ def probe_garbage(ctx, drv, scen, idx):
     counter-example is replayed on hashdb and only counts if the real database reproduces it."""
     wp = os.path.join(ctx.scratch, "gworld%d.json" % idx)
     ctx.drive(drv, ["-mode", "world", "-scenario", scen, "-world", wp], name="c21-gworld%d" % idx)
-    mod, w = world_module(ctx, "MCHashDBG%d" % idx, "MCHashDBBase", wp)
+    mod, w = world_module(ctx, "MCHashDBG%d" % idx, "MCHashDBBase", wp, edge_depth=0)
     res = ctx.tlc(mod, "state/MCHashDBGarbage", tags=("CEX",), timeout=3600, workers=ctx.pick(4, 8),
                   name="MCHashDBGarbage[scenario %s]" % scen)
     if res.timeout:
